@@ -421,3 +421,19 @@ Theorem C08_used_exactly : forall tyorder root args out pm s usedk,
   forall x, In x usedk <-> (reach (core_pm pm) out x /\ core_pm pm x <> None /\ ~ In x args).
 Proof. exact accepted_used. Qed.
 Print Assumptions C08_used_exactly.
+
+(* ------------------------------------------------------------------ C07 (explicit bound) *)
+(* the cycle-check loop completes within 2 + (sum of the successor counts of the keys) iterations per root,
+   whatever the graph: deep chains and lattices with exponentially many paths cost no more than their edges *)
+Theorem C07_linear_bound : forall (succ : nat -> list nat) (ks : list nat),
+  NoDup ks -> (forall u, succ u <> [] -> In u ks) ->
+  forall roots fuel, 1 + pot succ ks [] < fuel ->
+  exists v cycles, mrootsL succ fuel roots [] [] = Some (v, cycles).
+Proof. exact mrootsL_bound. Qed.
+Print Assumptions C07_linear_bound.
+
+(* hence the model's own fuel always suffices and the verdict is unconditional on every duplicate-free map *)
+Theorem C07_cycles_detected_total : forall tyorder pm, NoDup (keys pm) ->
+  (verify tyorder pm = [] <-> ~ exists u, path (succ_of pm) u u).
+Proof. exact verify_acyclic_iff_total. Qed.
+Print Assumptions C07_cycles_detected_total.
